@@ -231,6 +231,37 @@ def atofHex (mantissa : Nat) (exp0 : Int) (neg trunc : Bool) : FloatRes :=
 
 /-! ### the slow path — SPECIFIED, NOT MIRRORED -/
 
+/-- integer-part digits (leading zeros dropped) and fraction digits of a decimal text -/
+def mantDigits (s : Bytes) : Bytes × Bytes :=
+  let body := Spec.NumText.strip (Spec.NumText.splitSign s).2
+  let ip := body.takeWhile Spec.NumText.isDec
+  let fp := match body.dropWhile Spec.NumText.isDec with
+    | 46 :: r => r.takeWhile Spec.NumText.isDec
+    | _ => []
+  (ip.dropWhile (· == 48), fp)
+
+/-- THE ONE PIECE OF `decimal.set` THAT IS MIRRORED: its digit buffer holds 800 digits
+(`b.d [800]byte`); later digits are dropped (`trunc` if one of them is non-zero), and the
+position of the decimal point is then taken from the *capped* count (`b.dp = b.nd`). When the
+integer part has more than 800 significant digits the decimal therefore denotes
+D₈₀₀ · 10^E (E the exponent literal) instead of the text's value — finding N3 — and a dropped
+non-zero digit acts as "slightly more than D₈₀₀": modelled exactly by one extra digit 1 (a
+rounding boundary has at most ~770 significant digits, so none lies strictly between).
+For at most 800 integer digits the cap is harmless and the specification's (mant, exp) stand. -/
+def decimalCap (s : Bytes) (p : Spec.NumText.Parsed) : Nat × Int :=
+  let (ip, fp) := mantDigits s
+  if ip.length > 800 then
+    let d800 := Spec.NumText.valOf 10 (ip.take 800)
+    let e : Int := p.exp + (fp.length : Int)      -- the exponent literal itself
+    if (ip.drop 800 ++ fp).any (· != 48) then (d800 * 10 + 1, e - 1) else (d800, e)
+  else (p.mant, p.exp)
+
+/-- is the text in the class of finding N3? -/
+def inClassN3 (s : Bytes) : Bool :=
+  match Spec.NumText.recognise s with
+  | some p => !p.hex && (mantDigits s).1.length > 800
+  | none => false
+
 /-- `var d decimal; d.set(s); d.floatBits(&float64info)`: replaced by the specification of the
 decimal grammar and of correct rounding. A hex-prefixed text never succeeds here (`d.set`
 stops at the `x`). The two "obvious overflow/underflow" exits of `floatBits` (`d.dp > 310`,
@@ -243,14 +274,16 @@ def slowPath (s : Bytes) : FloatRes :=
   | none => ⟨0, some .syntax⟩
   | some p =>
     if p.hex then ⟨0, some .syntax⟩
-    else if p.mant == 0 then ⟨F64.zero p.neg, none⟩
     else
-      let dp : Int := ((Nat.toDigits 10 p.mant).length : Int) + p.exp
-      if dp > 310 then ⟨F64.inf p.neg, some .range⟩
-      else if dp < -330 then ⟨F64.zero p.neg, none⟩
-      else match p.eval with
-        | .ok b => ⟨b, none⟩
-        | .error _ => ⟨F64.inf p.neg, some .range⟩
+      let (m, e) := decimalCap s p
+      if m == 0 then ⟨F64.zero p.neg, none⟩
+      else
+        let dp : Int := ((Nat.toDigits 10 m).length : Int) + e
+        if dp > 310 then ⟨F64.inf p.neg, some .range⟩
+        else if dp < -330 then ⟨F64.zero p.neg, none⟩
+        else match ({ p with mant := m, exp := e } : Spec.NumText.Parsed).eval with
+          | .ok b => ⟨b, none⟩
+          | .error _ => ⟨F64.inf p.neg, some .range⟩
 
 /-! ### atof64 / ParseFloat -/
 
